@@ -79,6 +79,7 @@ type c19Mach struct {
 	before    []byte
 	placement string
 	relaid    bool   // the console had an earlier layout (another font) before the final one
+	nilLogo   bool   // SetLogo(nil) was called after the layout was complete
 	viaInit   bool   // brought up through the real DriverInit (map seam) instead of assigning the framebuffer
 	mapSizes  []uint64
 	fbLen     int // length of the framebuffer slice DriverInit built
@@ -298,6 +299,12 @@ func c19Build(spec c19Spec, r *vlib.Rand) (m *c19Mach, setupPanic interface{}, s
 				cons.SetLogo(lg)
 			}
 			cons.SetFont(f)
+			if r.Chance(1, 6) {
+				// "no logo available" (what hal passes on when no logo fits) after the layout is complete: nothing
+				// may change, in particular the logo that is already there keeps its rows
+				cons.SetLogo(nil)
+				m.nilLogo = true
+			}
 		})
 		m.dev = cons
 		switch spec.bpp {
@@ -730,6 +737,9 @@ func TestVerifC19(t *testing.T) {
 		}
 		if m.relaid {
 			count("consoles_laid_out_twice", 1)
+		}
+		if m.nilLogo {
+			count("consoles_given_a_nil_logo_after_layout", 1)
 		}
 		if m.viaInit {
 			count("consoles_brought_up_through_driverinit", 1)
